@@ -382,7 +382,7 @@ func main() {
 		}
 		sort.Strings(names)
 		for _, n := range names {
-			if strings.HasPrefix(n, "Parser.") || strings.HasPrefix(n, "TokenList.") || strings.HasPrefix(n, "tokenScanner.") || n == "Token.Val" || n == "validateGroupByFields" {
+			if strings.HasPrefix(n, "Parser.") || strings.HasPrefix(n, "TokenList.") || strings.HasPrefix(n, "tokenScanner.") || n == "Token.Val" || n == "validateGroupByFields" || n == "unquote" {
 				facts["panics.sql."+n] = sq.panicSites(qf[n])
 			}
 		}
@@ -518,6 +518,10 @@ func writeLean(dir string, facts map[string]interface{}) {
 		}
 		fmt.Fprintf(&tb, "  (%q, %d, %q)%s\n", t.name, t.val, table[t.name], sep)
 	}
-	tb.WriteString("]\n\nend Mkdb.Generated\n")
+	tb.WriteString("]\n\n")
+	for _, t := range toks {
+		fmt.Fprintf(&tb, "def t_%s : Int := %d\n", t.name, t.val)
+	}
+	tb.WriteString("\nend Mkdb.Generated\n")
 	writeIfChanged(filepath.Join(dir, "Tokens.lean"), tb.Bytes())
 }
